@@ -129,7 +129,43 @@ def criteria_shared(prog, run):
     maskkind.obligations(prog, run, "R-criteria", ("pyoma2.algorithms.ssi",))
 
 
+def eigvec_rule(prog, run, rule="R-eigvec"):
+    """mode shapes are C times the RIGHT eigenvectors of the state matrix; the vectors handed on for the sensitivities are (left, right)
+    in that order - read off the positional layout of the eigen-solver's outputs for the `left=` setting in force"""
+    run.rule(rule, "ac2mp: phi = C . (right eigenvectors of A) and the returned eigenvector slots are (left, right), for both settings of calc_unc - by the "
+             "output layout of the eigen-solver (w, [vl], [vr])", 2)
+    fi = prog.func("functions.ssi.ac2mp")
+    f = rel(prog.mods[fi.mod].path)
+    pos = astq.params_of(fi.node)[0]
+    cpar = pos[1] if len(pos) > 1 else "C"
+    upar = "calc_unc" if "calc_unc" in pos else None
+    for unc in ((True, False) if upar else (None,)):
+        pf = astq.PrunedFn(fi, {upar: unc}, subst=True) if upar else fi
+        cfg = f"calc_unc={unc}"
+        dots = [c for c in ast.walk(pf.node) if (isinstance(c, ast.Call) and (astq.callee_name(prog, pf, c) or "") in ("numpy.dot", "numpy.matmul") and len(c.args) == 2
+                                                  and isinstance(c.args[0], ast.Name) and c.args[0].id == cpar)
+                or (isinstance(c, ast.BinOp) and isinstance(c.op, ast.MatMult) and isinstance(c.left, ast.Name) and c.left.id == cpar)]
+        if not dots:
+            run.ob(rule, fi.qual, "phi = C . V", None, "no product of the output matrix C with a matrix of eigenvectors found", file=f, config=cfg)
+        for c in dots:
+            v = c.args[1] if isinstance(c, ast.Call) else c.right
+            role = astq.eig_output_role(prog, pf, astq.expr_at(pf, c, v))
+            run.ob(rule, fi.qual, "phi = C . V: V = right eigenvectors", None if role is None else role == "vr",
+                   f"`{astq.src(c, 60)}`: V is " + {"vr": "the right eigenvectors", "vl": "the LEFT eigenvectors (the output that follows the eigenvalues when left=True)",
+                                                   "w": "the eigenvalues", None: "not a positional output of the eigen-solver that could be read"}[role],
+                   witness=f"V={role}", file=f, node=c, config=cfg)
+        if unc:
+            for r in ast.walk(pf.node):
+                if isinstance(r, ast.Return) and isinstance(r.value, ast.Tuple) and len(r.value.elts) == 7:
+                    for k_, want in ((5, "vl"), (6, "vr")):
+                        role = astq.eig_output_role(prog, pf, astq.expr_at(pf, r, r.value.elts[k_]))
+                        run.ob(rule, fi.qual, f"returned slot {k_} = {'left' if want == 'vl' else 'right'} eigenvectors", None if role is None else role == want,
+                               f"`{astq.src(r.value.elts[k_])}` is output {role}", witness=f"slot{k_}={role}", file=f, node=r, config=cfg)
+
+
 def check(prog, run):
+    eigvec_rule(prog, run)
+    astq.shortcut_obligations(prog, run, [m_.qual for _, m_ in prog.class_methods("pyoma2.algorithms.ssi", "run")] + ["functions.ssi.build_hank"])
     criteria_shared(prog, run)
     # the matrices the realisation is given: exact poles at order 2m need the moment-matrix Hankel to hold one lag per block and the
     # data-driven one to be the block of the LQ factor below the past rows (C12's structure rules, the two methods C01 speaks about)
